@@ -7,6 +7,36 @@ VERIF = Path(__file__).resolve().parents[1]
 
 # pid -> dict(category, text, note, technique, design_ref) ; only properties with a working check
 CLAIMS = {
+ "C01": dict(category="other", technique="Lean 4 theorems (cache invariant => every upward query equals the brute-force scan) + per-step model/implementation correspondence judged in Lean",
+   text="Lean theorems: under the cache invariant CacheInv every modelled upward query is the brute-force answer and never reports a deleted entity; CacheInv itself is evaluated (decidable form) together with every dumped query against the scan over the dumped definitions on every step of generated histories (4 deletion modes x 8 incidence subsets, poly + tet), and the Lean mechanism model of TopologyKernel.cc is compared step by step with the ASan/UBSan build of the current sources. Preservation of CacheInv by the mutators is not yet proved for all mutators (refinement ladder): that part is sampling, not proof.",
+   note="Lean kernel + axioms listed in evidence; hand-written model lean/OVM/Kernel tied to the C++ only through the correspondence run; generator coverage is measured in the evidence"),
+ "C02": dict(category="other", technique="Lean 4 theorems (shift renumbering bijective, deferred cell deletion exact) + token-named-mesh oracle and model correspondence judged in Lean",
+   text="Lean theorems: the index-shift corrections are order-preserving bijections keeping half-entities with parent and side; deferred cell deletion changes exactly one flag and counter; bookkeeping functions. For every deletion in generated histories the judge checks on the implementation's own states that the surviving token-named mesh is the previous one minus the upward closure (brute force), counts/flags/genus/needs_gc consistency, and agreement with the Lean model in all four modes.",
+   note="as C01; entity identity is carried by integer token properties, so a property-transport bug (C03) would also show here"),
+ "C03": dict(category="other", technique="Lean 4 theorems about the column operations (resize/erase pair/swap pair keep values on entity and side) + token transport oracle + exact column correspondence",
+   text="Lean theorems for columns of any size: resize keeps values and defaults new slots, erasing halfedge slots 2h+1 then 2h moves every surviving halfedge value to the same side of its renumbered edge, swaps exchange exactly the two (pairs of) slots, construction/clear keep one slot per entity. Every tracked column of 5 value types x 7 kinds is compared exactly with the Lean model after every step, and token values are traced through every renumbering on the implementation's states.",
+   note="as C01; bool specialisation and value types are C++ glue covered only by the correspondence run"),
+ "C04": dict(category="other", technique="Lean 4 theorems (collect_garbage no-op/modes/counters) + logical-mesh oracle on every GC step + model correspondence",
+   text="Lean theorems: collect_garbage is the identity when nothing is pending, otherwise restores deferred mode, keeps fast mode and all incidence flags, and leaves no pending counter; leaving deferred mode collects first. On every garbage-collection step of generated histories the token-named logical mesh and all property values before and after are compared (oracle) and the result is compared with the Lean model. StatusAttrib::garbage_collection and tracked-handle remapping are not covered yet.",
+   note="as C01"),
+ "C08": dict(category="other", technique="Lean 4 proof about definitions translated from Handles.hh/TopologyKernel.hh by a clang-AST translator (regenerated every run) + mirror algebra on the model + correspondence",
+   text="The handle arithmetic (subidx, full, opp, half, the static conversions, the four correctValue shifts, is_valid) is re-translated from the current sources on every run and the theorems (mutual inverses, opposite involution, same parent / other side, no int overflow below 2^30, member = static forms, shift = renumbering) are re-proved against it; the model's own arithmetic is proved equal to the generated one. On the model: opposite halfedge swaps endpoints, opposite halfface is the reversed list of opposites, twice is the identity, mirrored closed loops stay closed. next/prev/get_halfface_vertices are checked on generated meshes (oracles + model).",
+   note="translator tools/t1_handles.py (clang-14 JSON AST, fails closed) is trusted; add_face(vertices) closedness and circulator direction are checked dynamically only"),
+ "C11": dict(category="other", technique="Lean 4 theorems (rejected call returns the identical state, accepted call appends exactly one entity, add_face check <=> closed loop, add_edge search sound/complete) + full-state comparison around rejected calls",
+   text="Lean theorems for every state and argument list: rejected add_face/add_cell and deduplicated add_edge return the whole state unchanged; accepted calls append exactly the given definition; add_face's check accepts exactly closed loops; the linear edge search returns only live edges and finds one if it exists. The sort/adjacent_find/unique form of add_cell's check is compared with the stated closed-surface predicate on every generated call (oracle), including a malformed stream (empty, open, repeated, missing/doubled face).",
+   note="as C01; equivalence of add_cell's check with the closed-surface predicate is not yet a theorem"),
+ "C12": dict(category="other", technique="Lean 4 theorems (linear-scan swap variants = relabel everything; disabled caches untouched) + paired run against an all-enabled twin mesh",
+   text="Lean theorems: with the guiding incidence kind disabled each swap relabels every definition (equals the relabeling specification), never touches the disabled cache, disabling clears exactly that cache. Every generated history is executed on two meshes, one with a random incidence schedule and one with everything enabled; definitions, flags, counters, properties and (when enabled) caches must agree after every step; every step runs under ASan/UBSan with bounds-checked vectors.",
+   note="as C01"),
+ "C17": dict(category="other", technique="Lean 4 theorems (relabeling involutions, slot-exchange involution, swap twice = identity for the scan variants) + exact-state correspondence and relabeling oracle on every swap",
+   text="Lean theorems: swapping a handle with itself is a no-op; the relabel maps and the (paired) slot exchanges are involutions commuting with opposite; for the linear-scan variants swap twice is the identity on the whole record. On every generated swap (all four kinds, deleted handles, all incidence subsets) the implementation's state must equal the Lean model exactly (including cache order), the token-named mesh must be unchanged, and exactly the two handles' tokens and flags exchanged.",
+   note="as C01; cache-guided variants = relabeling under CacheInv is not yet a theorem"),
+ "C19": dict(category="proof", technique="Lean 4 proof (ring identities in every commutative ring, order, reductions) + every library result re-evaluated by the Lean model",
+   text="67 Lean theorems about the executable vector model (component-wise definitions, strict total lexicographic order, dot/cross identities in any commutative ring incl. Int, ZMod 2^32, UInt32, reductions, truncating mean, minimize/maximize, stream round trip, barycenters, opposite-halfface normal); the model is tied to Vector11T.hh/GeometryKernel.hh by recomputing in Lean every result the compiled library prints over the integer lattice (exhaustive for N=2,3) and generated meshes. Two genuine defects are recorded as known findings (l1_norm, non-convex normals).",
+   note="model is hand-written (no translator); floating-point special values are only tested against the plain formula; IEEE exactness on representable results is assumed"),
+ "C20": dict(category="other", technique="Lean 4 proof (schedule independence of confined programs; decide over the const-method write-footprint table regenerated from the sources by a clang-AST translator) + snapshot diff and ThreadSanitizer runs",
+   text="Lean theorems: any interleaving of read-only (or confined) threads gives every thread its sequential result with no conflicting accesses; every non-excluded const method in the regenerated footprint table writes no shared state (kernel decide over the whole table). The link table => C++ behaviour is an extraction (T5) validated on every run by byte-snapshot diffs around 287 const queries and TSan runs with 2-16 threads; this part is dynamic, hence partial.",
+   note="T5 extraction is syntactic and conservative; libstdc++ const-access race freedom and the hardware memory model are trusted"),
 }
 
 NOT_YET = "check not built yet (build phase in progress; see DESIGN.md section 4)"
